@@ -24,10 +24,13 @@ package syncer
 //     (never with a path error for a segment that was collected under its hands).
 
 import (
+	"bytes"
 	"errors"
 	"fmt"
 	"io"
+	"net"
 	"os"
+	"path/filepath"
 	"runtime"
 	"sync"
 	"sync/atomic"
@@ -35,6 +38,8 @@ import (
 	"time"
 
 	"github.com/mgtv-tech/redis-GunYu/config"
+	"github.com/mgtv-tech/redis-GunYu/pkg/log"
+	"github.com/mgtv-tech/redis-GunYu/pkg/redis"
 	usync "github.com/mgtv-tech/redis-GunYu/pkg/sync"
 	"github.com/mgtv-tech/redis-GunYu/pkg/vfutil"
 )
@@ -1220,7 +1225,112 @@ func TestVerifC05chan(t *testing.T) {
 		c.scenarioSnapshotRace(t.TempDir(), vfutil.Scale(300, 3000))
 		c.stopBudgets()
 	}
+	c05cAbandonedWriters(t, s)
 	for _, m := range vfutil.InfraFailures() {
 		t.Errorf("C05chan harness infrastructure (no statement about the cache): %s", m)
+	}
+}
+
+// c05cAbandonedWriters drives the REAL RedisInput.syncData with a run scope that is already
+// closed when the source goroutine starts (the output failed, or readChannel could not open its
+// reader, while syncData was creating the writer): `sync()` then returns at its first test. The
+// writer syncData has created is registered in the cache at construction. Whatever the input does,
+// the cache must not go on OFFERING a snapshot nobody will ever write ("a cached snapshot is
+// offered for replay only while all of its bytes are present"): the next run's callers' protocol
+// (`ask` with no writer open, Proofs/StoreCaller.lean) and every consumer that replays it rely on it.
+func c05cAbandonedWriters(t *testing.T, s *vfutil.Session) {
+	tmp := t.TempDir()
+	ln, err := net.Listen("tcp", "127.0.0.1:0")
+	if err != nil {
+		vfutil.Infra("abandoned-writer scenario: no loopback listener: " + err.Error())
+		return
+	}
+	defer ln.Close()
+	go func() { // a source that answers PING and nothing else
+		for {
+			c, err := ln.Accept()
+			if err != nil {
+				return
+			}
+			go func(c net.Conn) {
+				defer c.Close()
+				buf := make([]byte, 256)
+				for {
+					n, err := c.Read(buf)
+					if err != nil {
+						return
+					}
+					if bytes.Contains(bytes.ToLower(buf[:n]), []byte("ping")) {
+						c.Write([]byte("+PONG\r\n"))
+					}
+				}
+			}(c)
+		}
+	}()
+	yml := fmt.Sprintf("input:\n  redis:\n    addresses: [\"%s\"]\noutput:\n  redis:\n    addresses: [\"%s\"]\nchannel:\n  storer:\n    dirPath: %s\nlog:\n  level: panic\n",
+		ln.Addr().String(), ln.Addr().String(), filepath.Join(tmp, "cfgdir"))
+	yp := filepath.Join(tmp, "cfg.yaml")
+	if err := os.WriteFile(yp, []byte(yml), 0o644); err != nil {
+		vfutil.Infra("abandoned-writer scenario: " + err.Error())
+		return
+	}
+	if err := config.InitSyncerConfig(yp); err != nil {
+		vfutil.Infra("abandoned-writer scenario: config: " + err.Error())
+		return
+	}
+	log.InitLog(*config.GetSyncerConfig().Log)
+	for _, bk := range []string{"disk", "mem"} {
+		for _, full := range []bool{true, false} {
+			dir := filepath.Join(tmp, fmt.Sprintf("%s-%v", bk, full))
+			os.MkdirAll(dir, 0o777)
+			ch := c05cNew(bk, dir, 1024, 0)
+			ch.SetRunId("run1")
+			ri := NewRedisInput(*config.GetSyncerConfig().Input.Redis)
+			ri.SetChannel(ch)
+			cli, err := redis.NewStandaloneRedis(ri.cfg)
+			if err != nil {
+				vfutil.Infra("abandoned-writer scenario: source double: " + err.Error())
+				return
+			}
+			scope := usync.NewWaitCloserFromParent(ri.wait, nil)
+			scope.Close(errors.New("the output failed while the input was creating its writer"))
+			config.GetSyncerConfig().Input.RdbLimiter() <- struct{}{} // fetchInput holds the limiter when it calls syncData
+			done := make(chan struct{})
+			go func() { defer close(done); ri.syncData(scope, cli, full, 100, 1000); scope.WgWait() }()
+			if !vfutil.Wait(done, 10*time.Second) {
+				s.Violate("hang", "RedisInput.syncData with a closed run scope did not return", map[string]interface{}{"scenario": "abandoned-writer", "backend": bk, "full": full})
+				continue
+			}
+			s.Count("abandoned_writer_runs")
+			replay := map[string]interface{}{"scenario": "abandoned-writer", "backend": bk, "fullSync": full,
+				"steps": "SetRunId(run1); run scope closed; RedisInput.syncData(scope, cli, full, rdbSize=100, offset=1000); scope.WgWait()"}
+			rl, rs := ch.GetRdb("run1")
+			if rl != -1 || rs != -1 {
+				// the run is over: nothing will ever feed this snapshot. Does a consumer that replays it get anything?
+				detail := fmt.Sprintf("the run ended (its scope was closed before the source goroutine started) but GetRdb()=(%d,%d) is still offered with 0 of %d bytes present and no writer running: syncData returned without closing the writer it had created", rl, rs, rs)
+				if rd, err := ch.NewReader(Offset{RunId: "run1", Offset: rl - 10}); err == nil {
+					w := usync.NewWaitCloser(nil)
+					rd.Start(w)
+					got := make(chan int, 1)
+					go func() { b := make([]byte, 16); n, _ := io.ReadFull(rd.IoReader(), b); got <- n }()
+					select {
+					case n := <-got:
+						detail += fmt.Sprintf("; a reader opened at %d ended after %d bytes", rl-10, n)
+					case <-vfutil.StartBudget(2 * time.Second).Done():
+						detail += fmt.Sprintf("; IsValidOffset(%d)=%v and a reader opened there (snapshot %d,%d) waits for bytes that never come", rl-10, ch.IsValidOffset(Offset{RunId: "run1", Offset: rl - 10}), rd.Left(), rd.Size())
+					}
+					w.Close(nil)
+					rd.Close()
+				}
+				s.Violate("snapshot-offered-incomplete", detail, replay)
+			}
+			if !full {
+				// a stream writer left behind is replaced by the next NewAofWritter (both backends close the old one): noted only
+				if l, r := ch.GetOffsetRange("run1"); l != -1 || r != -1 {
+					s.Count("abandoned_stream_writer_left_in_index")
+				}
+			}
+			ch.Close()
+		}
 	}
 }
